@@ -19,7 +19,7 @@ macro "absq" h:ident : tactic =>
 theorem case_sLoad (hI : Inv W P pb cb s Q) (hi : s.agents[i]? = some a) (hloc : a.loc = .sLoad) (v : Word) :
     Inv W P pb cb (setAgent s i { a with loc := .sCas, cur := v }) Q := by
   have hwf := hI.wf a (List.mem_of_getElem? hi)
-  apply inv_k0 hI i a { a with loc := .sCas, cur := v } hi (by absq hloc) (by absq hloc) hwf.1 (by simp)
+  apply inv_k0 hI i a { a with loc := .sCas, cur := v } hi (by absq hloc) (by intro h; simp [hloc] at h) (by absq hloc) hwf.1 (by simp)
   · exact ⟨fun _ => (hI.privW i a hi).1 (Or.inl hloc), by intro m hm; simp at hm⟩
   · intro h; simp [Loc.sMem] at h
   · intro h; simp [Loc.headMode] at h
@@ -27,7 +27,7 @@ theorem case_sLoad (hI : Inv W P pb cb s Q) (hi : s.agents[i]? = some a) (hloc :
 theorem case_sCas_fail (hI : Inv W P pb cb s Q) (hi : s.agents[i]? = some a) (hloc : a.loc = .sCas) (v : Word) :
     Inv W P pb cb (setAgent s i { a with cur := v }) Q := by
   have hwf := hI.wf a (List.mem_of_getElem? hi)
-  apply inv_k0 hI i a { a with cur := v } hi rfl rfl hwf.1 hwf.2.2.1
+  apply inv_k0 hI i a { a with cur := v } hi rfl (fun h => h) rfl hwf.1 hwf.2.2.1
   · exact hI.privW i a hi
   · intro h; simp [hloc, Loc.sMem] at h
   · intro h; simp [hloc, Loc.headMode] at h
@@ -39,15 +39,34 @@ theorem member_group (hI : Inv W P pb cb s Q) (hi : s.agents[i]? = some a) (hm :
   have hwf := hI.wf a (List.mem_of_getElem? hi)
   exact (hI.locks a.lk hwf.2.1).mems i a hi rfl hm
 
+theorem headLoc_of_head' {G : Grp} {h : Nat} {b : Agent} (hh : G.head = some h) (hb : s.agents[h]? = some b) :
+    headLoc s G = some b.loc := by
+  unfold headLoc; simp [hh, hb]
+
 theorem head_group (hI : Inv W P pb cb s Q) (hi : s.agents[i]? = some a) (hm : a.loc.headMode.isSome) :
     ∃ j G, (Q a.lk)[j]? = some G ∧ G.head = some i ∧ G.node = a.qnode ∧ HeadOK W P s a.lk (Q a.lk) j a := by
   have hwf := hI.wf a (List.mem_of_getElem? hi)
   have hL := hI.locks a.lk hwf.2.1
   obtain ⟨G, hG, hh⟩ := hL.headsBack i a hi rfl hm
   obtain ⟨j, hjG⟩ := List.mem_iff_getElem?.mp hG
-  obtain ⟨b, hb, _, hb2, _, hb4⟩ := hL.heads j G i hjG hh
+  have hlive : (hmode s G).isSome := by
+    unfold hmode; rw [headLoc_of_head' hh hi]; simpa using hm
+  obtain ⟨b, hb, _, hb2, _, hb4⟩ := hL.heads j G i hjG hh hlive
   rw [hi] at hb; cases hb
   exact ⟨j, G, hjG, hh, hb2.symm, hb4⟩
+
+/-- an agent is the (live) head of at most one group -/
+theorem head_unique (hI : Inv W P pb cb s Q) (hi : s.agents[i]? = some a) (hm : a.loc.headMode.isSome)
+    {j j0 : Nat} {G G0 : Grp} (hj : (Q a.lk)[j]? = some G) (hh : G.head = some i)
+    (hj0 : (Q a.lk)[j0]? = some G0) (hh0 : G0.head = some i) : j = j0 ∧ G = G0 := by
+  have hwf := hI.wf a (List.mem_of_getElem? hi)
+  have hL := hI.locks a.lk hwf.2.1
+  have hl : ∀ {G : Grp}, G.head = some i → (hmode s G).isSome := by
+    intro G hh; unfold hmode; rw [headLoc_of_head' hh hi]; simpa using hm
+  obtain ⟨b, hb, _, hb2, _, _⟩ := hL.heads j G i hj hh (hl hh)
+  obtain ⟨b0, hb0, _, hb02, _, _⟩ := hL.heads j0 G0 i hj0 hh0 (hl hh0)
+  rw [hi] at hb hb0; cases hb; cases hb0
+  exact idx_unique hL.nodup hj hj0 (by rw [← hb2, ← hb02])
 
 /-- all facts about reading the own node word of a group at index `j` -/
 theorem own_node_word (hI : Inv W P pb cb s Q) {ℓ : Nat} (hℓ : ℓ < s.locks.length)
@@ -98,7 +117,7 @@ theorem case_sSpinLock_moved (hW : WordSpecs P.C pb cb W) (hI : Inv W P pb cb s 
   have hL := hI.locks a.lk hwf.2.1
   obtain ⟨j0, G0, hj0, hn0, hmo⟩ := member_group hI hi (by simp [hloc, Loc.sMem])
   simp only [MemOK, hloc] at hmo
-  apply inv_k0 hI i a { a with cur := lockW s a.lk, loc := .sSpinNext } hi (by absq hloc) (by absq hloc) hwf.1 (by simp)
+  apply inv_k0 hI i a { a with cur := lockW s a.lk, loc := .sSpinNext } hi (by absq hloc) (by intro h; simp [hloc] at h) (by absq hloc) hwf.1 (by simp)
   · exact ⟨by intro h; simp at h, by intro m hm; simp at hm⟩
   · intro _ j G hj hn
     show j + 1 < (Q a.lk).length
@@ -118,10 +137,10 @@ theorem case_sSpinLock_grant (hW : WordSpecs P.C pb cb W) (hI : Inv W P pb cb s 
   have hL := hI.locks a.lk hwf.2.1
   obtain ⟨j0, G0, hj0, hn0, hmo⟩ := member_group hI hi (by simp [hloc, Loc.sMem])
   simp only [MemOK, hloc] at hmo
-  apply inv_k0 hI i a { a with cur := lockW s a.lk, loc := .held .S } hi (by absq hloc) (by absq hloc) hwf.1 (by simp)
+  apply inv_k0 hI i a { a with cur := lockW s a.lk, loc := .held .S } hi (by absq hloc) (by intro h; simp [hloc] at h) (by absq hloc) hwf.1 (by simp)
   · exact ⟨by intro h; simp at h, by intro m hm; simp at hm⟩
   · intro _ j G hj hn
-    show G.head = none
+    show hmode s G = none
     obtain ⟨Gk, hk⟩ := getLast?_of_idx hj
     obtain ⟨hw, _, hp⟩ := LockInv.lock_ptr hW hI hwf.2.1 hk
     have hGk := hI.node_lt (List.mem_of_getLast? hk)
@@ -134,7 +153,7 @@ theorem case_sSpinLock_grant (hW : WordSpecs P.C pb cb W) (hI : Inv W P pb cb s 
     subst hGG
     rw [hw, hW.noLocks] at hx
     have := (hW.xmask _ _ _ _ hGk (by have := hI.cnt_lt a.lk Gk.node; omega)).mp hx
-    exact hL.head_none_of_flags (fun b hb => (hI.wf b hb).2.2.2) hj this.1 this.2
+    exact hmode_none_of_flags (fun b hb => (hI.wf b hb).2.2.2) this.1 this.2
   · intro h; simp [Loc.headMode] at h
 
 theorem case_sSpinLock_stay (hI : Inv W P pb cb s Q) (hi : s.agents[i]? = some a)
@@ -143,7 +162,7 @@ theorem case_sSpinLock_stay (hI : Inv W P pb cb s Q) (hi : s.agents[i]? = some a
   have hwf := hI.wf a (List.mem_of_getElem? hi)
   obtain ⟨j0, G0, hj0, hn0, hmo⟩ := member_group hI hi (by simp [hloc, Loc.sMem])
   simp only [MemOK, hloc] at hmo
-  apply inv_k0 hI i a { a with cur := v } hi rfl rfl hwf.1 hwf.2.2.1
+  apply inv_k0 hI i a { a with cur := v } hi rfl (fun h => h) rfl hwf.1 hwf.2.2.1
   · exact hI.privW i a hi
   · intro _ j G hj hn
     simp only [MemOK, hloc]; exact hmo
@@ -178,7 +197,7 @@ theorem case_sSpinNext_found (hW : WordSpecs P.C pb cb W) (hI : Inv W P pb cb s 
   have hwf := hI.wf a (List.mem_of_getElem? hi)
   have hL := hI.locks a.lk hwf.2.1
   apply inv_k0 hI i a { a with nxt := nodeW s a.qnode &&& P.C.kPtrMask, loc := .sSpinNode } hi
-    (by absq hloc) (by absq hloc) hwf.1 (by simp)
+    (by absq hloc) (by intro h; simp [hloc] at h) (by absq hloc) hwf.1 (by simp)
   · exact ⟨by intro h; simp at h, by intro m hm; simp at hm⟩
   · intro _ j G hj hn
     show ∃ G', (Q a.lk)[j + 1]? = some G' ∧ linked s G' = true ∧ nodeW s a.qnode &&& P.C.kPtrMask = ofNode G'.node
@@ -198,7 +217,7 @@ theorem case_sSpinNext_stay (hI : Inv W P pb cb s Q) (hi : s.agents[i]? = some a
   have hL := hI.locks a.lk hwf.2.1
   obtain ⟨j0, G0, hj0, hn0, hmo⟩ := member_group hI hi (by simp [hloc, Loc.sMem])
   simp only [MemOK, hloc] at hmo
-  apply inv_k0 hI i a { a with nxt := v } hi rfl rfl hwf.1 hwf.2.2.1
+  apply inv_k0 hI i a { a with nxt := v } hi rfl (fun h => h) rfl hwf.1 hwf.2.2.1
   · exact hI.privW i a hi
   · intro _ j G hj hn
     obtain ⟨rfl, rfl⟩ := idx_unique hL.nodup hj hj0 (by rw [hn, hn0])
@@ -213,10 +232,10 @@ theorem case_sSpinNode_grant (hW : WordSpecs P.C pb cb W) (hI : Inv W P pb cb s 
   obtain ⟨j0, G0, hj0, hn0, hmo⟩ := member_group hI hi (by simp [hloc, Loc.sMem])
   simp only [MemOK, hloc] at hmo
   obtain ⟨G', hG', hlnk, hnx⟩ := hmo
-  apply inv_k0 hI i a { a with loc := .held .S } hi (by absq hloc) (by absq hloc) hwf.1 (by simp)
+  apply inv_k0 hI i a { a with loc := .held .S } hi (by absq hloc) (by intro h; simp [hloc] at h) (by absq hloc) hwf.1 (by simp)
   · exact ⟨by intro h; simp at h, by intro m hm; simp at hm⟩
   · intro _ j G hj hn
-    show G.head = none
+    show hmode s G = none
     obtain ⟨rfl, rfl⟩ := idx_unique hL.nodup hj hj0 (by rw [hn, hn0])
     have hG'lt := hI.node_lt (mem_of_idx hG')
     have htn : a.nxt.toNat = G'.node := by rw [hnx]; exact ofNode_toNat _ (Nat.lt_of_lt_of_le hG'lt hW.pbLe)
@@ -228,7 +247,7 @@ theorem case_sSpinNode_grant (hW : WordSpecs P.C pb cb W) (hI : Inv W P pb cb s 
     unfold grpW at hx
     rw [hW.noLocks] at hx
     have := (hW.xmask _ _ _ _ (hI.link_lt a.lk (j + 1)) (by have := hI.cnt_lt a.lk G.node; omega)).mp hx
-    exact hL.head_none_of_flags (fun b hb => (hI.wf b hb).2.2.2) hj this.1 this.2
+    exact hmode_none_of_flags (fun b hb => (hI.wf b hb).2.2.2) this.1 this.2
   · intro h; simp [Loc.headMode] at h
 
 /-! ### LockSIX / LockX: waiting for the predecessor -/
@@ -246,11 +265,13 @@ theorem case_xSpin_grant (hW : WordSpecs P.C pb cb W) (hI : Inv W P pb cb s Q) (
   have hhm : (Loc.held m).headMode = some m := by cases m <;> simp_all [Loc.headMode]
   apply inv_k0 hI i a { a with loc := .held m } hi
     (by simp [Agent.abs, hloc, hhm, Loc.headMode, Loc.isPub, Loc.isLink]; cases m <;> simp_all [Loc.sMem])
-    (by simp [hloc, Loc.priv]) hwf.1 (by simp)
+    (by intro h; simp [hloc] at h) (by simp [hloc, Loc.priv]) hwf.1 (by simp)
   · exact ⟨by intro h; simp at h, by intro m hm; simp at hm⟩
   · intro h; cases m <;> simp_all [Loc.sMem]
   · intro _ j G hj hh
-    obtain ⟨b, hb, _, hb2, _, _⟩ := hL.heads j G i hj hh
+    have hlive : (hmode s G).isSome := by
+      unfold hmode; rw [headLoc_of_head hh hi, hloc]; rfl
+    obtain ⟨b, hb, _, hb2, _, _⟩ := hL.heads j G i hj hh hlive
     rw [hi] at hb; cases hb
     have hpub : published s G = true := by
       unfold published; rw [headLoc_of_head hh hi, hloc]
@@ -276,15 +297,15 @@ theorem case_xSpin_grant (hW : WordSpecs P.C pb cb W) (hI : Inv W P pb cb s Q) (
         exfalso
         simp only [beq_iff_eq, hW.noLocks] at hok
         have := (hW.lockmask _ _ _ _ hlk hcn).mp hok
-        have hnone := hL.head_none_of_flags hwfm hPg this.1 this.2.1
+        have hnone := hmode_none_of_flags hwfm (G := Pg) this.1 this.2.1
         rcases hL.nonempty Pg (mem_of_idx hPg) with h1 | h1
         · rw [hnone] at h1; simp at h1
         · omega
       | SIX =>
         simp only [beq_iff_eq, hW.noLocks] at hok
         have := (hW.xmask _ _ _ _ hlk hcn).mp hok
-        have hnone := hL.head_none_of_flags hwfm hPg this.1 this.2
-        show E2 (Q a.lk) j
+        have hnone := hmode_none_of_flags hwfm (G := Pg) this.1 this.2
+        show E2 s (Q a.lk) j
         right
         have hj1 : j - 1 = 0 := by
           rcases Nat.eq_zero_or_pos (j - 1) with h0 | hpos
